@@ -133,6 +133,7 @@ impl<'l> PktParser<'l> {
         &mut self,
         domainv: &mut Vec<dnspkt::Label>,
         depth: i32,
+        octets: &mut usize,
     ) -> Result<(), String> {
         loop {
             let prefix = self.get_u8()?;
@@ -143,6 +144,13 @@ impl<'l> PktParser<'l> {
                 }
                 p if p & 0b1100_0000 == 0 => {
                     // Uncompressed label
+                    /* RFC 1035 2.3.4: a name is at most 255 octets, counting the length octets and
+                     * the root (so it has at most 127 labels).
+                     */
+                    *octets += 1 + prefix as usize;
+                    if *octets > 255 {
+                        return Err("Name too long".into());
+                    }
                     domainv.push(dnspkt::Label::from(self.get_bytes(prefix as usize)?));
                 }
                 offset_high if offset_high & 0b1100_0000 == 0b1100_0000 => {
@@ -158,7 +166,7 @@ impl<'l> PktParser<'l> {
                         (((offset_high & !0b1100_0000) as usize) << 8) | (offset_low as usize);
                     let saved_offset = self.offset;
                     self.offset = offset;
-                    let ret = self.get_domain_into(domainv, depth + 1);
+                    let ret = self.get_domain_into(domainv, depth + 1, octets);
                     self.offset = saved_offset;
                     return ret;
                 }
@@ -169,7 +177,7 @@ impl<'l> PktParser<'l> {
 
     pub fn get_domain(&mut self) -> Result<dnspkt::Domain, String> {
         let mut domainv = Vec::new();
-        self.get_domain_into(&mut domainv, 1)
+        self.get_domain_into(&mut domainv, 1, &mut 1)
             .map(|_| dnspkt::Domain::from(domainv))
     }
 
